@@ -152,10 +152,10 @@ def run_landscaper(case, ctx):
 def imager_data(draw):
     shift = draw(st.sampled_from([0.0, 0.0, 5.0, -3.0, 20.0]))
     sc = draw(st.sampled_from([1.0, 1.0, 0.5, 3.0]))
-    k = draw(st.sampled_from([1, 1, 2, 3]))
+    k = draw(st.sampled_from([1, 1, 2, 3, 4]))
     dgms = []
     for _ in range(k):
-        n = draw(st.integers(2, 5))
+        n = draw(st.integers(2, 6))
         pts = []
         same_birth = draw(st.integers(0, 5)) == 0
         for i in range(n):
@@ -163,7 +163,7 @@ def imager_data(draw):
             p = sc * draw(st.sampled_from([0.1, 0.2, 0.3, 0.7, 1.0, 1.5, 3.3]))
             pts.append([b, b + p])
         dgms.append(pts)
-    return {"dgms": dgms, "single": k == 1 and draw(st.booleans()), "skew": draw(st.booleans())}
+    return {"dgms": dgms, "single": k == 1 and draw(st.booleans()), "skew": draw(st.booleans()), "n_jobs": draw(st.sampled_from([None, None, 1, 1, 2]))}
 
 
 @st.composite
@@ -276,7 +276,12 @@ def run_imager(case, ctx):
             saw_transform = True
             before = public_state(est)
             arg = data_arg(op)
-            out = ctx.call(est.transform, arg, skew=op["skew"])
+            nj = op.get("n_jobs") if isinstance(arg, list) else None
+            if nj == 2 and k % 5:
+                nj = 1                   # real worker processes only now and then (start-up cost), n_jobs=1 takes the same code path
+            kw = {} if nj is None else {"n_jobs": nj}
+            ctx.label("n_jobs=%s" % nj if nj else None)
+            out = ctx.call(est.transform, arg, skew=op["skew"], **kw)
             again = ctx.call(est.transform, arg, skew=op["skew"])
             ctx.require(images_equal(out, again), "transform_not_repeatable", lambda: "%s: two transforms of the same data differ" % step)
             ctx.require(public_state(est) == before, "transform_alters_state", lambda: "%s changed the public state %s -> %s" % (step, before, public_state(est)))
@@ -325,6 +330,6 @@ CLAUSES = [
                 "on data of different extent with a transform in between and after"),
     Clause("imager_history", imager_history(7), run_imager, quick=3000, thorough=30000, floors={"refit_different_extent": 0.2},
            rule="PersistenceImager with fixed pixel size / weight / kernel + 1..7 calls; after each fit the public state equals that of a fresh imager "
-                "fitted on that data only; fit_transform == fit;transform; transform of a collection is element-wise and ordered, repeatable, and "
+                "fitted on that data only; fit_transform == fit;transform; transform of a collection (serially or with n_jobs) is element-wise and ordered, repeatable, and "
                 "leaves the public state unchanged; non-trivial as above"),
 ]
